@@ -568,18 +568,23 @@ RETS = [None, 0, 7, 'done', 'obj', '', False]
 def generate(prop, run_seed, tier='quick', tolerate=frozenset()):
     crng = kernel.stream(run_seed, 'cfg')
     rng = kernel.stream(run_seed, 'gen')
-    nc = crng.randint(1, 6)
+    crowd = crng.random() < .25     # many waiters with spread deadlines:
+    nc = crng.randint(7, 10) if crowd else crng.randint(1, 6)  # heap shapes
     wait_p = crng.choice([.3, .6, .9])
+    long_waits = [4, 6, 9, 10, 12, 14, 20, 30, 40, 41, 50]
     coros = []
     for _ in range(nc):
         ys = []
         for _ in range(crng.randint(0, 6)):
             if crng.random() < wait_p:
-                ys.append(crng.choice(YIELDS[6:]))
+                ys.append(crng.choice(long_waits) if crowd
+                          and crng.random() < .7 else
+                          crng.choice(YIELDS[6:]))
             else:
                 ys.append(crng.choice(YIELDS[:6]))
         coros.append({'yields': ys, 'ret': crng.choice(RETS)})
-    dts = crng.sample(DTS, crng.randint(1, 4))
+    dts = [1, 1, 2] if crowd and crng.random() < .6 else \
+        crng.sample(DTS, crng.randint(1, 4))
     cfg = {'in_world': crng.random() < .33, 'coros': coros}
     life = prop == 'C09'
     w = dict(frame=6, start=2, kill=.4, pkill=.1, state=.3, pstate=.1,
@@ -593,12 +598,14 @@ def generate(prop, run_seed, tier='quick', tolerate=frozenset()):
     kinds = [k for k, v in w.items() if v > 0]
     wts = [w[k] for k in kinds]
     nframes = crng.randint(5, 40 if tier == 'quick' else 60)
+    if crowd:
+        nframes = crng.randint(30, 90)
     ops = []
     for c in range(nc):
         if rng.random() < .6:
             ops.append(['start', c])
     frames = 0
-    while frames < nframes and len(ops) < 120:
+    while frames < nframes and len(ops) < (260 if crowd else 120):
         k = rng.choices(kinds, wts)[0]
         c = rng.randrange(nc)
         if k == 'frame':
